@@ -7,7 +7,7 @@ From LC Require Model.Keyboard.
 From LC Require Import Base.Lib Gen.Keyboard_gen Gen.Capi_gen Gen.Editor_gen Model.Composition Model.Conversion Model.Editor
      Model.EditorRun Model.EdInst Model.CapiKeys Model.CapiConfig Model.CapiRun
      Proofs.CompositionProofs Proofs.EditorInv Proofs.EditorFrames Proofs.CapiKeysProofs Proofs.CapiInv Proofs.CapiPassthrough
-     Proofs.CapiResult.
+     Proofs.CapiResult Proofs.DictFrame.
 Import ListNotations.
 
 Section CapiEnter.
@@ -53,6 +53,28 @@ Proof.
   assert (Hb : b = BAbsorb) by (rewrite Hl in Ha; destruct b; cbn in Ha; try discriminate; reflexivity). rewrite Hb in E.
   pose proof (absorbed_in_entering_is_bounded mdf_ops lay_ops conv _ _ _ E Hst) as K.
   unfold chewing_buffer_Len, flag, c_flags. cbn [List.nth cx_ed with_ed]. lia.
+Qed.
+
+(* C08: with auto-learning disabled chewing_handle_Enter - the commit - leaves the dictionary as it was, in every
+   state but the one where Enter is the explicit add-phrase gesture (a range is marked) *)
+Theorem c_enter_with_learning_disabled_keeps_the_dictionary c mods c' :
+  CI c -> (mods < 16)%N -> o_no_learn (opts (sh (cx_ed c))) = true ->
+  (forall mv, st (cx_ed c) <> Highlighting mv) ->
+  cstep conv c (CHandle kc_Enter mods) = Ok c' ->
+  dict (sh (cx_ed c')) = dict (sh (cx_ed c)) /\ o_no_learn (opts (sh (cx_ed c'))) = true.
+Proof.
+  intros Hc Hm Hn Hst H. pose proof Hc as [_ Hk].
+  assert (Hin : In kc_Enter passthrough_codes) by (left; reflexivity).
+  destruct (named_key_code (cx_kb c) kc_Enter mods Hk Hin Hm) as (ev & Hev & Hcode).
+  cbn [cstep] in H. unfold handle_code in H. rewrite Hev in H. unfold press, ml_key in H.
+  destruct (process_keyevent mdf_ops lay_ops conv (cx_ed c) (of_key_event ev)) as [[e' b]| | |] eqn:E; try discriminate.
+  inversion H; subst c'; clear H. cbn [fst cx_ed with_ed].
+  assert (Ha : adds_phrase (st (cx_ed c)) (of_key_event ev) = false).
+  { unfold adds_phrase. destruct (st (cx_ed c)) as [| |pg act sel|mv]; try reflexivity.
+    - cbn [of_key_event kcode]. rewrite Hcode. reflexivity.
+    - exfalso. now apply (Hst mv). }
+  pose proof (process_keyevent_dk mdf_ops lay_ops conv _ _ _ _ Hn Ha E) as K. unfold dk in K. injection K as K1 K2.
+  split; [exact K1 | now rewrite K2].
 Qed.
 
 End CapiEnter.
